@@ -738,6 +738,8 @@ pub fn snapshot_text(env: &mut Env<VS>) -> String {
         }
     }
     lines.push(format!("arg0={}", env.arg0));
+    // (`$$`: the process ID of the shell itself, also inside subshells)
+    lines.push(format!("mainpid={}", env.main_pid.0));
     lines.push(format!("ttyfg={:?}", world_state().borrow().foreground.map(|p| p.0)));
     lines.push(format!("status={}", env.exit_status.0));
     lines.push(format!("jobs={}", env.jobs.len()));
@@ -928,6 +930,7 @@ fn jobsout_main(env: &mut Env<VS>, args: Vec<Field>) -> BFut<'_> {
     }
     if let Some(ctl) = ctl() {
         ctl.count("jobs_listings_checked");
+        ctl.record(pid, "jobsout", 0, 0, &label);
         if let Some(p) = problem {
             ctl.record(pid, "jobcheck-fail", 0, 0, &format!("jobs-listing: {p} at {label}; listing: {:?}", text));
         }
